@@ -101,6 +101,7 @@ func (a API) key() (in, name string) {
 
 type Arg struct {
 	Name string
+	Omit bool     // the caller does not supply this (optional) parameter at all
 	Vs   []string // scalar: one; multi: any number
 	// file: the underlying file is blob(Len, Seed); it is handed over as a Src positioned at Off
 	FileName string
@@ -210,7 +211,7 @@ func (c Case) JSON() M {
 	for _, st := range c.Steps {
 		args := make([]M, 0)
 		for _, a := range st.Args {
-			args = append(args, M{"name": a.Name, "vs": trace.BB(a.Vs), "filename": trace.B(a.FileName), "len": a.Len, "seed": a.Seed,
+			args = append(args, M{"name": a.Name, "omit": a.Omit, "vs": trace.BB(a.Vs), "filename": trace.B(a.FileName), "len": a.Len, "seed": a.Seed,
 				"src": a.Src, "off": a.Off, "fails": a.Fails, "failat": a.FailAt, "body": trace.B(a.Body)})
 		}
 		hdrs := make([]M, 0)
@@ -262,7 +263,7 @@ func caseFrom(d M) Case {
 		st := Step{Op: drv.Str(sm["op"]), Auth: drv.Str(sm["auth"]), Media: drv.Str(sm["media"]), Debug: drv.Bool(sm["debug"]), PatStatic: kvFrom(sm["pstatic"]), Before: drv.Str(sm["before"])}
 		for _, x := range drv.List(sm["args"]) {
 			m := drv.Map(x)
-			arg := Arg{Name: drv.Str(m["name"]), FileName: trace.Str(m["filename"]), Len: drv.Int(m["len"]), Seed: drv.Int(m["seed"]),
+			arg := Arg{Name: drv.Str(m["name"]), Omit: drv.Bool(m["omit"]), FileName: trace.Str(m["filename"]), Len: drv.Int(m["len"]), Seed: drv.Int(m["seed"]),
 				Src: drv.Str(m["src"]), Off: drv.Int(m["off"]), Fails: drv.Bool(m["fails"]), FailAt: drv.Int(m["failat"]), Body: trace.Str(m["body"])}
 			for _, v := range drv.List(m["vs"]) {
 				arg.Vs = append(arg.Vs, trace.Str(v))
@@ -654,6 +655,9 @@ func render(v any) []any {
 		}
 		return out
 	case runtime.File:
+		if x.Data == nil { // an optional file that was not uploaded
+			return []any{}
+		}
 		b, _ := io.ReadAll(x.Data)
 		x.Data.Close()
 		return []any{trace.B(x.Header.Filename), contentID(b)}
@@ -1210,6 +1214,9 @@ func exchangeOnce(rt *client.Runtime, api *API, cur *exchange, op *Op, concurren
 	supplied := make([]M, 0)
 	writer := runtime.ClientRequestWriterFunc(func(r runtime.ClientRequest, _ strfmt.Registry) error {
 		for _, a := range st.Args {
+			if a.Omit {
+				continue
+			}
 			p := params[a.Name]
 			switch p.Loc {
 			case "path":
@@ -1243,6 +1250,9 @@ func exchangeOnce(rt *client.Runtime, api *API, cur *exchange, op *Op, concurren
 		return nil
 	})
 	for _, a := range st.Args {
+		if a.Omit {
+			continue
+		}
 		p := params[a.Name]
 		var vs any
 		off := 0
@@ -1576,6 +1586,8 @@ func generate(c *drv.Ctx) {
 	genRound3(c, emit)
 	// (xii)-(xiv) values spelling sibling placeholders, API keys that are also declared parameters, other Runtimes customised
 	genRound4(c, emit)
+	// (xv) calls that supply only some of the optional parameters
+	genOmissions(c, emit)
 	c.Extra["exhaustive_cases"] = n
 	// (iv) seeded random: single calls on the shared servers, and sessions on servers of their own
 	nr, ns := 1500, 400
